@@ -44,6 +44,7 @@ class Report(object):
         self.assumptions = []
         self.stats = {}
         self.floors = []            # (rule, found, floor)
+        self.deficits = []
         self.canaries = []          # (name, ok)
         self.selftest = None
 
@@ -88,8 +89,10 @@ class Report(object):
     def floor(self, rule, found, floor):
         self.floors.append((rule, found, floor))
         if found < floor:
-            raise AnalysisError('rule %s matched %d instances, floor is %d (anchor drift: '
-                                'the rule would pass vacuously)' % (rule, found, floor))
+            # decided at the end of the run: a missing instance that also produced a violation is
+            # reported as the violation; a silent drop is an analysis error (vacuous pass)
+            self.deficits.append('rule %s matched %d instances, floor is %d (anchor drift: '
+                                 'the rule would pass vacuously)' % (rule, found, floor))
 
     def canary(self, name, ok):
         self.canaries.append((name, bool(ok)))
@@ -186,7 +189,13 @@ def finish(report, tier, level, explanation, t0, seed=0, extra=None, write=True)
     print('%s %s: %d obligations, %d discharged, %d known findings, %d violations, %d suppressed (%.2fs)' % (
         prop, tier, n_obl, n_obl - n_fail, len(matched), len(violations), len(report.suppressed),
         time.time() - t0))
-    return 1 if violations else 0
+    if violations:
+        return 1
+    if report.deficits:
+        for d in report.deficits:
+            print('ANALYSIS-ERROR %s: %s' % (prop, d))
+        return 2
+    return 0
 
 
 def key(*parts):
